@@ -45,5 +45,8 @@ def main():
                 print("NONDETERMINISTIC world=%s GOMAXPROCS=%d rep=%d: %d of %d runs differ; first: %s" % (part["world"], gmp, rep, len(d), len(ref), d[:2]))
                 bad += 1
         print("world %s: %d runs x %d processes compared, ties=%s unordered_maps=%s" % (part["world"], len(ref), len(res), res[0][3].get("sched_key_ties", 0), res[0][3].get("unordered_map_iterations", 0)))
+        ties = {k: v for k, v in res[0][3].items() if k.startswith("tie:")}
+        if ties:
+            print("  tied scheduling keys (two waiters indistinguishable to the scheduler): %s" % ties)
     sys.exit(1 if bad else 0)
 main()
